@@ -410,8 +410,10 @@ class Interp:
         if t.op == "call" and (head in self._BOOL_CALLS or head.startswith(("is", "has", "str.", "re."))):
             if not (head in (".any", "reduce:any", "numpy.any") and getattr(av, "any_of_positions", False)):
                 return
+        # a list / array of positions as a whole is tested for emptiness (a Python list) -- only a single position is a number here
+        one_position = getattr(av, "pos_of", None) is not None and t.op == "call" and head in ("elem", "each", "item", "rowelem", "at")
         numeric = self._evidently_numeric(t) or (t.op == "call" and head in (".any", "reduce:any", "numpy.any")) \
-            or getattr(av, "scalar_pos", False) or getattr(av, "pos_of", None) is not None
+            or getattr(av, "scalar_pos", False) or one_position
         if numeric:
             self.record("typing", "number-truth", [av], {}, node)
 
@@ -424,14 +426,16 @@ class Interp:
             return False
         if t.op in ("add", "sub", "mul", "div", "mod", "floordiv", "neg", "pow"):
             return True
+        if t.op in ("int", "float", "abs", "round") and t.args and hasattr(t.args[0], "op"):
+            return self._evidently_numeric(t.args[0], depth + 1)
         if t.op == "sym":
             n = str(t.args[0])
             return n in self.numeric_syms or n.startswith("a:") or n.startswith("b:")
         if t.op != "call" or not t.args:
             return False
         head = str(t.args[0])
-        if head in ("col", "enum_index", "where", "argsort", "len", "nrows"):
-            return head in ("col", "enum_index", "where", "argsort")
+        if head in ("col", "enum_index", "where", "argsort", "len", "nrows", "reduce:argmax", "reduce:argmin"):
+            return head not in ("len", "nrows")
         if head in ("elem", "rowelem", "each", "item", "at", "column", "sel", "getitem", "reduce:max", "reduce:min", "reduce:sum", "reduce:mean", "unique",
                     "numpy.asarray", "numpy.array", "vec") and len(t.args) > 1 and hasattr(t.args[1], "op"):
             return self._evidently_numeric(t.args[1], depth + 1)
@@ -712,6 +716,9 @@ class Interp:
                 return j_
         if isinstance(a, Val) and isinstance(b, Val):
             if a.term == b.term:
+                e_ = self._empty_side(cterm, a, b)
+                if e_ is not None:
+                    return e_
                 return a
             j_ = Val(mk("ite", cterm, a.term, b.term), space=a.space or b.space, pos_of=a.pos_of or b.pos_of)
             ax_a, ax_b = getattr(a, "axes", None), getattr(b, "axes", None)
@@ -767,6 +774,53 @@ class Interp:
         if ta == tb:
             return a
         return Unk(mk("ite", cterm, ta, tb), space=getattr(a, "space", None) or getattr(b, "space", None), why="join")
+
+    @staticmethod
+    def _empty_side(cterm, a, b):
+        """two selections of the same element-wise value, one of them taken only when an array it is derived from has no rows: that side
+        contributes no rows at all, so the merged value is the other selection (`if idx.shape[0] == 0: sel = idx  else: sel = idx[mask]`)"""
+        sa_, sb_ = getattr(a, "space", None), getattr(b, "space", None)
+        if sa_ is None or sb_ is None or sa_ is sb_:
+            return None
+        c, neg = cterm, False
+        while c.op == "not":
+            c, neg = c.args[0], not neg
+        if c.op not in ("eq", "ne", "lt", "gt", "le", "ge") or len(c.args) != 2:
+            return None
+        l, r = c.args
+        if c.op in ("gt", "ge"):
+            l, r, op = r, l, {"gt": "lt", "ge": "le"}[c.op]
+        else:
+            op = c.op
+        def count_of(t):
+            return tm.cval(t.args[1]) if t.op == "call" and t.args and t.args[0] == "nrows" and len(t.args) >= 2 else None
+        # forms: nrows == 0, 0 == nrows (then-branch empty) ; nrows != 0, 0 < nrows, 1 <= nrows (else-branch empty)
+        sid, then_empty = None, None
+        if op == "eq" and count_of(l) is not None and tm.cval(r) == 0:
+            sid, then_empty = count_of(l), True
+        elif op == "eq" and count_of(r) is not None and tm.cval(l) == 0:
+            sid, then_empty = count_of(r), True
+        elif op == "ne" and count_of(l) is not None and tm.cval(r) == 0:
+            sid, then_empty = count_of(l), False
+        elif op == "lt" and count_of(r) is not None and tm.cval(l) == 0:
+            sid, then_empty = count_of(r), False
+        elif op == "le" and count_of(r) is not None and tm.cval(l) == 1:
+            sid, then_empty = count_of(r), False
+        if sid is None:
+            return None
+        if neg:
+            then_empty = not then_empty
+        empty, other = (a, b) if then_empty else (b, a)
+        # the empty side must be (derived from) the counted array, the other side as well: both are selections of it
+        def derived(sp):
+            while sp is not None:
+                if sp.id == sid:
+                    return True
+                sp = sp.parent
+            return False
+        if derived(getattr(empty, "space", None)) and derived(getattr(other, "space", None)):
+            return other
+        return None
 
     def join_env(self, cterm, ea, eb):
         out = {}
